@@ -69,8 +69,8 @@ func (wk *worker) randomUnit(i int) {
 				}
 			}
 			body := biasedBytes(r, r.Intn(65))
-			if r.Intn(8) == 0 {
-				body = r.Bytes(r.Intn(65))
+			if uni := r.Intn(8) == 0; uni && wk.thorough {
+				body = r.Bytes(r.Intn(65)) // uniform bodies (a gigabyte length every other time): thorough tier only
 			}
 			b := append(ref.EncodeHeader(v, resp, flags, int16(r.Intn(100)), op, int32(len(body))), body...)
 			wk.frameEPs(call{ver: byte(v), base: "random-body/" + opNames[op]}, b, mut{Class: mcRandBody, O: int(op), Val: int64(flags)}, 0, false)
@@ -162,7 +162,11 @@ var largeTypes = []*cqlref.Type{
 func (wk *worker) toEverything(name string, in []byte, m mut, frames bool, uniform bool) {
 	// frames: a valid header for every version x opcode, the input as body (cut so that header + body <= 1 MiB)
 	if frames {
-		for _, v := range ref.Versions {
+		for vi, v := range ref.Versions {
+			// quick tier: v5 and one other version (rotating with the seed), without the prefix-flags variant
+			if !wk.thorough && v != ref.V5 && vi != int(wk.seed%int64(len(ref.Versions))+int64(len(ref.Versions)))%len(ref.Versions) {
+				continue
+			}
 			hl := v.HeaderLen()
 			body := in
 			if len(body)+hl > MiB {
@@ -174,7 +178,7 @@ func (wk *worker) toEverything(name string, in []byte, m mut, frames bool, unifo
 				}
 				resp := opIsResponse(v, op)
 				for _, flags := range []byte{0, ref.FlagTracing | ref.FlagWarning | ref.FlagCustomPayload} {
-					if flags != 0 && !v.HasPayloadAndWarnings() {
+					if flags != 0 && (!v.HasPayloadAndWarnings() || !wk.thorough) {
 						continue
 					}
 					b := append(ref.EncodeHeader(v, resp, flags, 1, op, int32(len(body))), body...)
@@ -248,7 +252,11 @@ func (wk *worker) toEverything(name string, in []byte, m mut, frames bool, unifo
 		}) {
 			continue
 		}
-		wk.dcExec(codec, t, name+"->"+t.Shallow(), wk.destsFor(t, nil), in, m, dcVersions)
+		vs := dcVersions
+		if !wk.thorough {
+			vs = dcVersions[1:2] // quick tier: v4 (the v2 collection format gets its share in dcUnit)
+		}
+		wk.dcExec(codec, t, name+"->"+t.Shallow(), wk.destsFor(t, nil), in, m, vs)
 	}
 }
 
@@ -275,6 +283,9 @@ func (wk *worker) largeUnit(i int) {
 		// that ends early costs quadratic time and memory (32768 levels: minutes and gigabytes; 524288
 		// levels: a 256 MiB stack first). They run in the resource table of the thorough tier.
 		in = in[:4<<10]
+		if !wk.thorough {
+			in = in[:1<<10] // 512 levels: the wrapped error messages stay below 4 MiB
+		}
 	} else if !wk.thorough && len(in) > 64<<10 {
 		in = in[:64<<10] // quick tier: the first 64 KiB of every special; the thorough tier feeds the full 1 MiB
 	}
